@@ -126,4 +126,8 @@ def config_env(rng, big=False):
         env['LBZIP2_VERIF_PERTURB'] = str(rng.randrange(1, 10**6))
     if rng.random() < 0.3:
         env['LBZIP2_VERIF_IN_SLOTS'] = str(rng.choice([2, 3, 4, 8]))
+    if rng.random() < 0.3:
+        # scarce output slots (never <= EMIT_THRESH = 2: that test-only
+        # setting can starve the emit reserve by construction)
+        env['LBZIP2_VERIF_OUT_SLOTS'] = str(rng.choice([3, 4, 6]))
     return env
